@@ -381,7 +381,7 @@ def run_nrt_reset(p, v):
     from vlib import prog, prog_model
     from checks import c05
     try:
-        m = prog_model.Model(p, interacting={'tempo'}).run()
+        m = prog_model.Model(p, interacting={'tempo', 'etempo'}).run()
     except prog_model.Ambiguous:
         raise Reject()
     if m.simultaneous:
